@@ -1385,10 +1385,11 @@ func (ec *evalCtx) evalCall(x *ast.CallExpr) (Value, types.Type) {
 // full sort Sort, at index path Idx (shorter than the family's dimension =
 // the whole sub-array).
 type locRef struct {
-	Key  string
-	Sort string
-	Idx  []Term
-	All  bool // everything (modifies heap)
+	Key      string
+	Sort     string
+	Idx      []Term
+	All      bool // everything (modifies heap)
+	AllGhost bool // every ghost family (modifies ghost.*)
 }
 
 func sortDims(sort string) (dims int, elem string) {
@@ -1438,6 +1439,9 @@ func (fr *Frame) resolveLoc(m string, pkg *types.Package, env map[string]bound, 
 	m = strings.TrimSpace(m)
 	if m == "heap" {
 		return []locRef{{All: true}}, nil
+	}
+	if m == "ghost.*" {
+		return []locRef{{AllGhost: true}}, nil
 	}
 	if m == "nothing" || m == "" {
 		return nil, nil
@@ -1572,7 +1576,7 @@ func (fr *Frame) resolveLoc(m string, pkg *types.Package, env map[string]bound, 
 func (vc *VC) withChanLast(locs []locRef) []locRef {
 	out := locs
 	for _, l := range locs {
-		if l.Key != "ghost.chansent" {
+		if l.All || l.AllGhost || l.Key != "ghost.chansent" {
 			continue
 		}
 		for k, srt := range vc.famSort {
@@ -1594,6 +1598,10 @@ func (fr *Frame) havocLoc(m string, pkg *types.Package, env map[string]bound, st
 	for _, l := range locs {
 		if l.All {
 			vc.havocAll(st)
+			continue
+		}
+		if l.AllGhost {
+			vc.havocAllGhost(st)
 			continue
 		}
 		cur := vc.get(st, l.Key, l.Sort)
@@ -1643,6 +1651,9 @@ func (fr *Frame) frameGoal(k string, cur Term, idx []Term, allowed []locRef) Ter
 	}
 	alts := []Term{sEq(a, b)}
 	for _, l := range allowed {
+		if l.AllGhost && strings.HasPrefix(k, "ghost.") {
+			return "true"
+		}
 		if l.Key != k {
 			continue
 		}
@@ -1766,6 +1777,17 @@ func (fr *Frame) frameObligations(c *Contract, exit *State, kind string) error {
 	if all {
 		return nil
 	}
+	if exit.gepoch != 0 {
+		okg := false
+		for _, l := range allowed {
+			if l.AllGhost {
+				okg = true
+			}
+		}
+		if !okg {
+			vc.oblige(exit, kind, "callee_changes_all_ghost_state_but_contract_does_not_say_ghost.*", "false", fr.fn.Pos(), "")
+		}
+	}
 	if exit.epoch != 0 && !ghostOnly {
 		// unknown code ran: the frame cannot be established
 		vc.oblige(exit, kind, "unknown_code_ran_but_contract_does_not_say_havoc", "false", fr.fn.Pos(), "")
@@ -1797,6 +1819,15 @@ func (fr *Frame) frameObligations(c *Contract, exit *State, kind string) error {
 		}
 		var alts []Term
 		alts = append(alts, sEq(a, b))
+		ghostFree := false
+		for _, l := range allowed {
+			if l.AllGhost && strings.HasPrefix(k, "ghost.") {
+				ghostFree = true
+			}
+		}
+		if ghostFree {
+			continue
+		}
 		for _, l := range allowed {
 			if l.Key != k {
 				continue
